@@ -12,6 +12,14 @@ make_reg = getattr(mod, 'make_registry', H.Registry)
 for h in H.HARNESSES:
     if flt and flt not in h.id: continue
     r = H.run_harness(h, idx, make_reg)
+    if '-p' in sys.argv:
+        from pyvc import solvers
+        for ob in r.obligations:
+            if ob.status == 'unknown' and ob.smt2:
+                t0=time.time(); res = solvers.solve(ob.smt2, 20)
+                print('    portfolio', ob.name, res[0], res[1], '%.1fs' % res[2])
+                if res[0] == 'unsat': ob.status = 'discharged'
+                elif res[0] == 'sat': ob.status = 'refuted'
     st = {}
     for ob in r.obligations: st[ob.status] = st.get(ob.status, 0) + 1
     print('%-70s paths=%d cut=%d obl=%d %s %.1fs' % (h.id, r.paths, r.cut_paths, len(r.obligations), st, r.seconds))
